@@ -15,7 +15,6 @@ import (
 	"unsafe"
 
 	"golang.org/x/tools/go/ssa"
-	
 )
 
 // If the target program panics, the interpreter panics with this type.
